@@ -217,6 +217,33 @@ func TestExhaustiveHeaders(t *testing.T) {
 			try([]byte{byte(a), byte(b)})
 		}
 	}
+	// grid: every tag zerolog knows (and a few it does not) x every container/string major type x
+	// lying lengths in every head width, alone, inside an indefinite map, and followed by a few
+	// payload bytes — the places where a decoder sizes a buffer from the input
+	if sh == 0 {
+		tags := [][]byte{{0xc1}, {0xd8, 0x3f}, {0xd9, 0x01, 0x04}, {0xd9, 0x01, 0x05}, {0xd9, 0x01, 0x05, 0xa1}, {0xd9, 0x01, 0x06}, {0xd9, 0x01, 0x07}, {0xc2}, {0xd9, 0x03, 0xe8}, {}}
+		lies := []uint64{24, 255, 256, 65535, 65536, 1 << 20, 1<<26 + 3, 1<<30 - 1, 1 << 31, 1<<32 - 1, 1 << 32, 1 << 40, 1<<62 + 5, 1<<63 - 1, 1 << 63, 1<<64 - 1}
+		for _, tg := range tags {
+			for major := byte(2); major <= 5; major++ {
+				for _, lie := range lies {
+					for _, w := range []int{1, 2, 4, 8} {
+						if w == 1 && lie > 255 || w == 2 && lie > 65535 || w == 4 && lie > 1<<32-1 {
+							continue
+						}
+						head := []byte{major<<5 | byte(23+map[int]int{1: 1, 2: 2, 4: 3, 8: 4}[w])}
+						for i := w - 1; i >= 0; i-- {
+							head = append(head, byte(lie>>(8*uint(i))))
+						}
+						item := append(append([]byte{}, tg...), head...)
+						for _, suffix := range [][]byte{nil, []byte("abc"), {0xff}} {
+							try(append(append([]byte{}, item...), suffix...))
+							try(append(append([]byte{0xbf, 0x61, 0x6b}, item...), suffix...))
+						}
+					}
+				}
+			}
+		}
+	}
 	if ev.Thorough() {
 		for a := sh; a < 256; a += nsh {
 			for b := 0; b < 256; b++ {
